@@ -161,6 +161,44 @@ def zero_right_operands(ck, c, qt, u, v):
         ck.bad("raised:zero-operand", case, {"error": "%s: %s" % (type(e).__name__, str(e)[:200])})
 
 
+def integer_ndarray_operands(ck, db):
+    """one operand backed by an integer ndarray, the other by a list / tuple / float ndarray of non-integral amounts (both
+    orders, simple and squared units): every element is a.value +/- b re-expressed - nothing is squeezed into integers."""
+    import numpy as np
+    from barril.units import Array
+
+    ctx = ck.ctx
+    ints, fracs = [1, 2, 3, -4], [0.5, 1.25, -2.75, 10.125]
+    for u, v, e in (("m", "m", 1), ("m", "cm", 1), ("km", "m", 1), ("s", "min", 1), ("m", "cm", 2), ("degC", "K", 1)):
+        qt = db.GetQuantityType(u)
+        def conv_(x, frm, to):  # noqa: E306
+            return db.Convert(qt, frm, to, x) if e == 1 else x * (db.Convert(qt, frm, to, 1.0) - db.Convert(qt, frm, to, 0.0)) ** e
+        for dt in (np.int64, np.int32):
+            for other_kind, mk in (("list", list), ("tuple", tuple), ("nd", lambda z: np.array(z, dtype=float))):
+                def build(vals, unit, integer):  # noqa: E306
+                    cont = np.array(vals, dtype=dt) if integer else mk(vals)
+                    a = Array(cont, unit)
+                    return a * a if e == 2 else a
+                iv = [x * x for x in ints] if e == 2 else ints
+                fv = [x * x for x in fracs] if e == 2 else fracs
+                for name, left, right, lv, rv, lu, ru in (
+                    ("int ndarray + %s" % other_kind, build(ints, u, True), build(fracs, v, False), iv, fv, u, v),
+                    ("%s + int ndarray" % other_kind, build(fracs, v, False), build(ints, u, True), fv, iv, v, u),
+                ):
+                    case = {"operands": name, "dtype": dt.__name__, "units": [lu, ru], "exponent": e}
+                    for sym, sign in (("+", 1), ("-", -1)):
+                        ctx.ev()
+                        ctx.nt(("integer ndarray", name, dt.__name__, lu, ru, e, sym))
+                        try:
+                            res = left + right if sign == 1 else left - right
+                            got = [float(x) for x in res.GetValues()]
+                            want = [x + sign * conv_(y, ru, lu) for x, y in zip(lv, rv)]
+                            if len(got) != len(want) or not all(abs(g - w) <= 1e-9 * (abs(w) + abs(x) + 1e-300) for g, w, x in zip(got, want, lv)):
+                                ck.bad("integer-ndarray-operand:value:%s" % sym, case, {"got": got, "want": want, "result": repr(res)[:160]})
+                        except Exception as ex:
+                            ck.bad("raised:integer-ndarray-operand", case, {"error": "%s: %s" % (type(ex).__name__, str(ex)[:160])})
+
+
 def cancelling_categories(ck, db, r, n):
     """a right operand whose categories partly cancel inside one quantity type (length**2 / diameter is a length, its
     quantity-type string reads 'length') added to a plain amount of that type in another unit - Scalars and Arrays."""
@@ -246,6 +284,7 @@ def run(ctx):
                     ctx.nt(("zero right operand", c, u, v))
         if ctx.shard == 0:
             cancelling_categories(ck, db, ctx.rng("cancel"), 2 if ctx.tier == "quick" else 12)
+            integer_ndarray_operands(ck, db)
     ctx.inconclusive_if(probe.COUNTS["UnitDatabase.Sum"] == 0 or probe.COUNTS["UnitDatabase.Subtract"] == 0, "Sum/Subtract never reached")
 
 
